@@ -223,3 +223,10 @@ TEXT["C04"].update(
     note="Assumed: push_compressed_domain appends between 1 and labels+1 octets (LinkedList dictionary outside Verus; Kani-bounded), section lengths fit 16-bit counts, Vec::splice / Vec::extend exact semantics (R11, R11b), replies handed to the serialiser are pkt_wf. "
          "Not decided: that each kept record re-parses as one record (C14); that a dropped record really did not fit (needs the octet-exact encoding). Defect D04b (names over 255 octets accepted, reply over the limit) found by strengthening this contract, fixed in e311220. "
          "Observation: run_tcp uses sock.write / sock.read (not write_all / read_exact) for the frame and the length prefix; a short write or read is not excluded (I/O schedule, outside this family).")
+
+TEXT["C03"].update(
+    level=TEXT["C03"]["level"] + " A reply served from the cache is the stored upstream reply for a query with the same name, type, DO and CD bits in class IN (non-IN questions never touch the map), with every TTL reduced by the whole seconds since it was stored and nothing else changed (units cache, dnsttl).")
+TEXT["C02"].update(
+    level=TEXT["C02"]["level"] + " At reply level (handle_discover / handle_request): yiaddr lies in the address set the policies selected for this request (base policy first, then the configured ones); which policy's set that is follows the first-applicable-sibling model of unit policy.")
+TEXT["C09"].update(
+    level=TEXT["C09"]["level"] + " At reply level: at a clock reading taken while the request was processed, a client holding an address of the pool it is served from is offered/acknowledged one it holds, and the one it names (DISCOVER: option 50; REQUEST: ciaddr if set, else option 50) when it holds that one -- so the address acknowledged after an offer is the one offered; NoAssignableAddress only when every address of that pool is in use.")
